@@ -500,7 +500,111 @@ def emit_forms9(w, src, must):
     w("")
 
 
-SECTIONS = [("codes", emit_codes), ("timers", emit_timers), ("guards", emit_guards), ("stun", emit_stun), ("sdp", emit_sdp), ("sip", emit_sip), ("auth", emit_auth), ("ua", emit_ua), ("tsxforms", emit_tsxforms), ("streamforms", emit_streamforms), ("cancelforms", emit_cancelforms), ("stunforms", emit_stunforms), ("uaforms", emit_uaforms), ("forms8", emit_forms8), ("forms9", emit_forms9)]
+def emit_forms10(w, src, must):
+    """third batch of decision points (Model/Forms10.v)"""
+    mc = src("crates/sip-types/src/macros.rs")
+    i = mc.find("macro_rules! lookup_table")
+    b = mc[i:mc.find("macro_rules!", i + 10)] if i >= 0 and mc.find("macro_rules!", i + 10) > 0 else mc[i:] if i >= 0 else ""
+    neg = bool(re.search(r"<=\s*(LOOKUP_TABLE\s*\.\s*len\(\)|128)", b))
+    pos = bool(re.search(r"is_ascii\(\)\s*&&|<\s*(LOOKUP_TABLE\s*\.\s*len\(\)|128)\b|\.get\(\s*\w+\s*\)", b)) and not neg
+    w("(* the character-class lookup (lookup_table!) only indexes its table with a character strictly below the table's length *)")
+    flag(w, "lookup_index_guarded", pos, neg, "the bounds guard of the lookup_table! macro")
+
+    cl = src("crates/sip-core/src/transaction/client.rs")
+    b = _fn_body(cl, r"pub async fn receive_final\b")
+    pos = bool(re.search(r"\bloop\b|\bwhile\b", b))
+    neg = (not pos) and bool(re.search(r"self\s*\.\s*receive\(\)\s*\.await", b))
+    w("(* ClientTsx::receive_final discards provisional responses in a loop *)")
+    flag(w, "receive_final_loops", pos, neg, "whether ClientTsx::receive_final loops over provisional responses")
+
+    sv = src("crates/sip-core/src/transaction/server.rs")
+    b = _fn_body(sv, r"pub async fn respond\b")
+    pos = bool(re.search(r"if\s+[^\n{]*reliable\(\)\s*\{\s*return\s+Ok\(\(\)\)", b))
+    neg = (not pos) and bool(re.search(r"reliable\(\)", b))
+    w("(* ServerTsx::respond returns right after the one transmission over a reliable transport (no absorbing task) *)")
+    flag(w, "nonink_reliable_returns_at_once", pos, neg, "what ServerTsx::respond does after the first transmission over a reliable transport")
+
+    ci = src("crates/sip-core/src/transaction/client_inv.rs")
+    b = _fn_body(ci, r"async fn handle_msg\b") or _fn_body(ci, r"fn handle_msg\b")
+    arms = [(m.start(), m.group(1)) for m in re.finditer(r"\n\s*((?:CodeKind::\w+\s*\|?\s*)+|_)\s*=>", b)]
+    ack_at = b.find("create_ack(")
+    arm = None
+    for pos_, pat in arms:
+        if pos_ < ack_at or ack_at < 0:
+            arm = pat if pos_ < ack_at else arm
+    helper = re.search(r"_\s*=>\s*\{?\s*[^\n]*(acknowledge_failure|create_ack|take\(\)\.expect)", b)
+    pos = (arm is not None and arm.strip() == "_") or bool(helper)
+    neg = arm is not None and arm.strip() != "_" and "GlobalFailure" not in arm and "CodeKind::" in arm
+    w("(* ClientInvTsx::handle_msg: every final response that is not a 2xx takes the ACK arm (catch-all) *)")
+    flag(w, "non2xx_arm_catches_all", pos and not neg, neg, "which match arm of ClientInvTsx::handle_msg builds the ACK")
+
+    ky = src("crates/sip-ua/src/dialog/key.rs")
+    dm = src("crates/sip-ua/src/dialog/mod.rs")
+    kb = _fn_body(dm, r"pub fn key\b")
+    neg = bool(re.search(r"to_ascii_lowercase|to_lowercase|to_ascii_uppercase|eq_ignore_ascii_case", ky + kb))
+    pos = bool(re.search(r"clone_detach\(\)", ky)) and not neg
+    w("(* dialog keys hold Call-ID and tags byte for byte *)")
+    flag(w, "dialog_key_bytewise", pos, neg, "how dialog keys hold their tags")
+
+    ac = src("crates/sip-ua/src/invite/acceptor.rs")
+    b = _fn_body(ac, r"pub async fn respond_success\b")
+    neg = bool(re.search(r"peer_contact\s*=[^=]", b))
+    pos = ("Session::new(" in b or "into_session(" in b) and not neg
+    w("(* Acceptor::respond_success leaves the dialog's remote target alone (it is the Contact of the INVITE) *)")
+    flag(w, "callee_target_from_invite", pos, neg, "whether Acceptor::respond_success assigns the dialog's peer contact")
+
+    tm = src("crates/sip-core/src/transport/mod.rs")
+    b = _fn_body(tm, r"async fn select\b") + _fn_body(tm, r"async fn select_for_server\b")
+    neg = bool(re.search(r"\.or\(\s*self\s*\.\s*connect\(", b))
+    pos = bool(re.search(r"if\s+let\s+Some\(\w+\)\s*=\s*self\s*\.\s*find_matching_idling_transport\([^\n]*\{\s*return", b)) or bool(re.search(r"\.or_else\(", b))
+    w("(* Transports::select asks a factory to connect only when no existing transport was found *)")
+    flag(w, "connect_only_when_none_found", pos and not neg, neg, "whether Transports::select connects before it knows that nothing was found")
+
+    rg = src("crates/sip-ua/src/register/mod.rs")
+    b = _fn_body(rg, r"pub fn receive_success_response\b") + _fn_body(rg, r"fn set_lifetime\b")
+    pos = bool(re.search(r"self\s*\.\s*expires\s*=[^=]", b))
+    neg = (not pos) and "create_reg_interval(" in b
+    w("(* Registration::receive_success_response stores the lifetime the registrar granted *)")
+    flag(w, "granted_lifetime_stored", pos, neg, "whether receive_success_response stores the granted lifetime")
+
+    ps = src("crates/stun-types/src/parse.rs")
+    b = _fn_body(ps, r"pub fn get_attr_with\b") or ps
+    m = re.search(r"after_integrity\s*&&\s*!matches!\(\s*attr\s*\.\s*typ\s*,([^)]*)\)", b, re.S)
+    lst = m.group(1) if m else ""
+    pos = "MessageIntegritySha256::TYPE" in lst and "Fingerprint::TYPE" in lst
+    neg = bool(m) and "MessageIntegritySha256::TYPE" not in lst
+    w("(* ParsedMessage::get_attr_with: behind an integrity attribute MESSAGE-INTEGRITY-SHA256 and FINGERPRINT stay visible *)")
+    flag(w, "sha256_visible_after_integrity", pos, neg, "the attributes ParsedMessage::get_attr_with lets through behind an integrity attribute")
+
+    sd = src("crates/sdp-types/src/session_description.rs")
+    i = sd.find("impl SessionDescription")
+    b = _fn_body(sd[i:] if i >= 0 else sd, r"pub fn parse\b")
+    head = b[:b.find("for ")] if "for " in b else b
+    neg = bool(re.search(r"trim_end|\.trim\(\)|str::trim|trim_matches", head))
+    pos = bool(re.search(r"\.split\(", head)) and not neg
+    w("(* SessionDescription::parse hands every line to the field parsers as it is (nothing trimmed) *)")
+    flag(w, "sdp_lines_verbatim", pos, neg, "whether SessionDescription::parse trims its lines")
+
+    i = ac.find("impl Drop for Acceptor")
+    b = ac[i:ac.find("\n}\n", i) + 3] if i >= 0 else ""
+    neg = bool(re.search(r"\breturn\b", b))
+    pos = bool(re.search(r"\.remove\(", b)) and not neg
+    w("(* Drop for Acceptor removes its pending-cancel entry whatever the state *)")
+    flag(w, "acceptor_drop_always_removes", pos, neg, "whether Drop for Acceptor can return before it removes its entry")
+
+    ini = src("crates/sip-ua/src/invite/initiator.rs")
+    us = ""
+    if os.path.exists(os.path.join(translate_repo(), "crates/sip-ua/src/invite/uac_session.rs")):
+        us = src("crates/sip-ua/src/invite/uac_session.rs")
+    b = _fn_body(ini, r"fn create_session\b") + _fn_body(us, r"fn prepare\b")
+    neg = bool(re.search(r"new_unsupported\(\)|if\s+peer_supports_timer\s*\{[^}]*create_timer_from_response", b, re.S))
+    pos = bool(re.search(r"create_timer_from_response\(\s*\w+\s*\)\s*\?", b)) and not neg
+    w("(* Initiator::create_session makes the session timer from the Session-Expires of the 2xx alone *)")
+    flag(w, "session_timer_from_header", pos, neg, "what Initiator::create_session makes the session timer from")
+    w("")
+
+
+SECTIONS = [("codes", emit_codes), ("timers", emit_timers), ("guards", emit_guards), ("stun", emit_stun), ("sdp", emit_sdp), ("sip", emit_sip), ("auth", emit_auth), ("ua", emit_ua), ("tsxforms", emit_tsxforms), ("streamforms", emit_streamforms), ("cancelforms", emit_cancelforms), ("stunforms", emit_stunforms), ("uaforms", emit_uaforms), ("forms8", emit_forms8), ("forms9", emit_forms9), ("forms10", emit_forms10)]
 
 # which properties' models read which section of Gen/Tables.v
 SECTION_USERS = {
@@ -518,6 +622,7 @@ SECTION_USERS = {
     "cancelforms": ["C12"],
     "stunforms": ["C20", "C16"],
     "uaforms": ["C12", "C06", "C07"],
+    "forms10": ["C02", "C05", "C06", "C07", "C10", "C11", "C13", "C14", "C16", "C17", "C19", "C20"],
     "forms9": ["C03", "C07", "C08", "C11", "C12", "C13", "C15", "C19", "C20"],
     "forms8": ["C02", "C04", "C06", "C09", "C10", "C12", "C13", "C14", "C16", "C20"],
 }
